@@ -41,6 +41,21 @@ Definition rt_case (c : rt_params * option bool * list rt_event * list (option (
 """
 
 
+SHAPES = ("full", "no_tf", "extra", "reordered")
+
+
+def shaped(rec: dict, shape: str) -> dict:
+    """The same record with another column set: without its term-frequency column, with a column the model does not use,
+    with the columns in the opposite order."""
+    if shape == "no_tf":
+        return {k: v for k, v in rec.items() if not k.startswith("tf_")}
+    if shape == "extra":
+        return {**rec, "note": "n/a", "zz_score": 1.5}
+    if shape == "reordered":
+        return dict(reversed(list(rec.items())))
+    return dict(rec)
+
+
 def settings_of(model: int):
     """SettingsCreator for a model id (its comparisons carry the configure() values of the model)."""
     from splink import SettingsCreator
@@ -155,13 +170,15 @@ class RtWorld:
         return addr
 
     # ---- calls
-    def call(self, kind: str, ident, use_cache: bool, flag: bool, pair=(0, 1), reference: bool = True, other: bool = False):
+    def call(self, kind: str, ident, use_cache: bool, flag: bool, pair=(0, 1), reference: bool = True, other: bool = False,
+             shape: str = "full"):
         """kind: 'obj' (ident = gen), 'dict' (ident = model, plain values), 'cdict' (ident = model, creator objects),
         'str' / 'path' (ident = file slot; the settings argument is the file name as str / pathlib.Path).
         other=True runs the call (and its reference) on the second DatabaseAPI."""
         from pathlib import Path
         from splink.internals.realtime import compare_records
-        a, b = RECS[pair[0]], RECS[pair[1]]
+        import splink.internals.realtime as R
+        a, b = shaped(RECS[pair[0]], shape), shaped(RECS[pair[1]], shape)
         api = self.second_api() if other else self.api
         dialect = api.sql_dialect.sql_dialect_str
         if kind in ("str", "path"):
@@ -177,16 +194,36 @@ class RtWorld:
             settings, model = T.creators_dict(ident % N_MODELS, ident // N_MODELS), ident
             term = f"(RDict {coq_nat(ident // N_MODELS)} {coq_nat(ident % N_MODELS)})"
         # reference: the same arguments on a settings object of its own, no SQL cache; it is an event like any other
-        ref_rows = None
-        if reference:
+        ref_rows, ref_err, err = None, None, None
+        if reference or shape != "full":
             rg, _ = self.new_object(model)
-            ref_rows = result_rows(compare_records(a, b, self.objs[rg], api, use_sql_from_cache=False,
-                                                   include_found_by_blocking_rules=flag))
-            self.events.append(f"(RtCall (RObj {coq_nat(self.info[rg][0])} {coq_nat(rg)} {coq_nat(model)}) false {coq_bool(flag)})")
-            self.obs.append(f"(Some (true, {coq_bool(flag)}, false))")
-            self.log.append(("ref", rg, model, flag))
+            try:
+                ref_rows = result_rows(compare_records(a, b, self.objs[rg], api, use_sql_from_cache=False,
+                                                       include_found_by_blocking_rules=flag))
+            except Exception as e:  # noqa: BLE001
+                ref_err = f"{type(e).__name__}: {e}"[:200]
+            if ref_err is None:       # a call that raises stores nothing (checked below for the call itself): not an event
+                self.events.append(f"(RtCall (RObj {coq_nat(self.info[rg][0])} {coq_nat(rg)} {coq_nat(model)}) false {coq_bool(flag)})")
+                self.obs.append(f"(Some (true, {coq_bool(flag)}, false))")
+                self.log.append(("ref", rg, model, flag))
             self.delete(rg)
-        res = compare_records(a, b, settings, api, use_sql_from_cache=use_cache, include_found_by_blocking_rules=flag)
+        keys_before = set(R._sql_cache._cache)
+        try:
+            res = compare_records(a, b, settings, api, use_sql_from_cache=use_cache, include_found_by_blocking_rules=flag)
+        except Exception as e:  # noqa: BLE001
+            err = f"{type(e).__name__}: {e}"[:200]
+        if err is not None or ref_err is not None:
+            # records the model cannot score (a needed column is missing): cached and uncached call must fail alike and the
+            # failing call must leave the SQL cache alone
+            if (err is None) != (ref_err is None) or set(R._sql_cache._cache) != keys_before:
+                self.problems.append({"call": (kind, ident, use_cache, flag), "model": model, "cached_path": None, "dialect": dialect,
+                                      "difference": {"why": "raised", "records": shape, "cached": err, "uncached": ref_err,
+                                                     "cache_keys_changed": set(R._sql_cache._cache) != keys_before},
+                                      "events_so_far": list(self.log)})
+            self.log.append(("failed_call", kind, ident, use_cache, flag, shape))
+            if err is None:
+                self.outside_model = "a call succeeded although its uncached reference raised"
+            return False
         rows = result_rows(res)
         cached_path = res.physical_name.startswith("__splink__realtime_compare_records_")
         has_flag = bool(rows) and "found_by_blocking_rules" in rows[0]
@@ -204,7 +241,8 @@ class RtWorld:
                                       "difference": d, "events_so_far": list(self.log)})
         self.events.append(f"(RtCall {term} {coq_bool(use_cache)} {coq_bool(flag)})")
         self.obs.append(f"(Some ({coq_bool(own)}, {coq_bool(has_flag)}, {coq_bool(cached_path)}))")
-        self.log.append(("call", kind, ident, use_cache, flag, {"cached_path": cached_path, "own": own, "dialect": dialect}))
+        self.log.append(("call", kind, ident, use_cache, flag, {"cached_path": cached_path, "own": own, "dialect": dialect,
+                                                                 "records": shape}))
         return cached_path
 
     def coq_case(self) -> str:
@@ -323,6 +361,20 @@ def scenario_two_apis(ctx: Ctx, backend: str, params: dict):
     return w
 
 
+def scenario_record_shapes(ctx: Ctx, backend: str, params: dict):
+    """The same settings, records with different column sets from call to call (without the tf column - the model cannot
+    score those on the unchanged code, both modes raise -, with unused extra columns, columns reordered): the cached SQL
+    belongs to the settings, not to the records it was generated for."""
+    w = RtWorld(backend, params)
+    g, _ = w.new_object(2)
+    w.write_file(0, 2)
+    for kind, ident in [("obj", g), ("cdict", 3), ("str", 0)]:
+        for shape in ("no_tf", "full", "extra", "full", "reordered", "no_tf", "full"):
+            w.call(kind, ident, True, False, pair=(0, 3), shape=shape)
+        w.call(kind, ident, True, True, pair=(0, 3), shape="extra")
+    return w
+
+
 def scenario_random(ctx: Ctx, backend: str, params: dict, n: int):
     rng = ctx.rng
     w = RtWorld(backend, params)
@@ -346,10 +398,11 @@ def scenario_random(ctx: Ctx, backend: str, params: dict, n: int):
             continue
         if k == "del":
             continue
+        shape = rng.choice(SHAPES) if rng.random() < 0.35 else "full"
         if k == "obj":
-            w.call("obj", rng.choice(live), uc, flag, pair=tuple(rng.sample(range(4), 2)))
+            w.call("obj", rng.choice(live), uc, flag, pair=tuple(rng.sample(range(4), 2)), shape=shape)
         else:
-            w.call(k, rng.randrange(2 * N_MODELS), uc, flag, pair=tuple(rng.sample(range(4), 2)))
+            w.call(k, rng.randrange(2 * N_MODELS), uc, flag, pair=tuple(rng.sample(range(4), 2)), shape=shape)
     return w
 
 
@@ -380,6 +433,7 @@ def realtime_stage(ctx: Ctx, fixes: dict):
         worlds.append(("creator_dicts", backend, scenario_creator_dicts(ctx, backend, params)))
         worlds.append(("mutation", backend, scenario_mutation(ctx, backend, params)))
         worlds.append(("paths", backend, scenario_paths(ctx, backend, params)))
+        worlds.append(("record_shapes", backend, scenario_record_shapes(ctx, backend, params)))
         worlds.append(("file_rewritten", backend, scenario_file_rewritten(ctx, backend, params)))
         worlds.append(("two_apis", backend, scenario_two_apis(ctx, backend, params)))
         for _ in range((3 if backend == "duckdb" else 1) if ctx.quick else (24 if backend == "duckdb" else 8)):
@@ -394,7 +448,10 @@ def realtime_stage(ctx: Ctx, fixes: dict):
                        {"realtime_scenario": kind, "backend": backend, "events": len(w.log)})
         ctx.hist("realtime_scenario", kind)
         for e in w.log:
+            if e[0] == "failed_call":
+                ctx.hist("realtime_records", e[5] + " (raises)")
             if e[0] == "call":
+                ctx.hist("realtime_records", e[5].get("records", "full"))
                 ctx.hist("realtime_cached_path", e[5]["cached_path"])
                 ctx.hist("realtime_settings_kind", e[1])
         for pb in w.problems:
@@ -406,6 +463,8 @@ def realtime_stage(ctx: Ctx, fixes: dict):
             if kind == "file_rewritten" and pb["call"][0] in ("str", "path") and pb["cached_path"]:
                 feats = {"scenario": "realtime_settings_file_rewritten", "settings_kind": pb["call"][0],
                          "served": "sql_of_previous_file_content"}
+            if pb["difference"].get("why") == "raised" or (kind == "record_shapes" and pb["cached_path"]):
+                feats = {"scenario": "realtime_cache_sql_depends_on_records", "settings_kind": pb["call"][0]}
             if kind == "two_apis":
                 feats = {"scenario": "realtime_two_database_apis", "settings_kind": pb["call"][0], "dialect": pb["dialect"]}
             if kind == "mutation" and not params["rp_content_in_key"]:
